@@ -157,14 +157,60 @@ theorem meet_f32 {vw vh dx dy ax ay : F32} (h : Hyp vw vh dx dy ax ay) :
       (place dx (meetSize vw vh dx dy).1 ax).1 (place dy (meetSize vw vh dx dy).2 ay).1
       (place dx (meetSize vw vh dx dy).1 ax).2 (place dy (meetSize vw vh dx dy).2 ay).2 := Fit32.meet_f32 h
 
-/-- (b)(c)(d) **slice**: the same with `covers : dx ≤ W ∧ dy ≤ H`, hence `min ≤ 4u·D` and
-    `D − 6u·(D+S) ≤ max`. -/
+/-- (b)(c)(d) **slice**, with the placement `placeS d s a = ((d − s)·a, d − (d − s)·(1 − a))` (the far edge is
+    measured from the target's far edge; `aspect_eq32`: this IS `aspectSlice`).  `SliceF32`: `size`,
+    `size_touch`, `touch` as for meet; `x`, `y` (`PlacedS`): finite; `|min − a·(D−S)| ≤ 6u·(D+S)`,
+    `|max − (a·(D−S)+S)| ≤ 8u·(D+S)` (the alignment of an overflowing rectangle can only be accurate relative
+    to its own size); `covers`: `min ≤ 4u·D` and `(1−5u)·D ≤ max` — relative to the TARGET side;
+    `covers_exact`: if the FLOAT side `s ≥ D` then `min ≤ 0` and `D ≤ max` with no tolerance;
+    `covers_ulp`: if `(1−2u)·D ≤ s` then `min ≤ 3u·D` and `(1−4u)·D ≤ max`. -/
 theorem slice_f32 {vw vh dx dy ax ay : F32} (h : Hyp vw vh dx dy ax ay) :
     SliceF32 dx dy ax ay (sliceSizeQ (val vw) (val vh) (val dx) (val dy)).1
       (sliceSizeQ (val vw) (val vh) (val dx) (val dy)).2
       (sliceSize vw vh dx dy).1 (sliceSize vw vh dx dy).2
-      (place dx (sliceSize vw vh dx dy).1 ax).1 (place dy (sliceSize vw vh dx dy).2 ay).1
-      (place dx (sliceSize vw vh dx dy).1 ax).2 (place dy (sliceSize vw vh dx dy).2 ay).2 := Fit32.slice_f32 h
+      (placeS dx (sliceSize vw vh dx dy).1 ax).1 (placeS dy (sliceSize vw vh dx dy).2 ay).1
+      (placeS dx (sliceSize vw vh dx dy).1 ax).2 (placeS dy (sliceSize vw vh dx dy).2 ay).2 := Fit32.slice_f32 h
+
+/-- **`slice_covers_exact`** — what the repair of `AspectSlice` buys, in terms of `(w, h) = sliceSize …`:
+    in the branch `dx/dy < vw/vh` (float test) `dx ≤ w` and `h = dy` as floats (monotone rounding:
+    `rnd(dx/dy) < vbAR` forces `dx ≤ dy·vbAR`, and `dx` is representable), and the result covers the target
+    exactly: `minX ≤ 0`, `dx ≤ maxX`, `minY = ±0`, `maxY = dy`; in the other branch `w = dx`, `minX = ±0`,
+    `maxX = dx`, the float height `h = rnd(dx/vbAR)` satisfies `(1−2u)·dy ≤ h` (it can fall short of `dy` when
+    the branch test was decided by rounding), covering in y is exact whenever `dy ≤ h`, and in any case
+    `minY ≤ 3u·dy`, `(1−4u)·dy ≤ maxY`. -/
+theorem slice_covers_exact {vw vh dx dy ax ay : F32} (h : Hyp vw vh dx dy ax ay) :
+    (dx / dy < vw / vh →
+      val dx ≤ val (sliceSize vw vh dx dy).1 ∧ (sliceSize vw vh dx dy).2 = dy ∧
+      val (placeS dx (sliceSize vw vh dx dy).1 ax).1 ≤ 0 ∧ val dx ≤ val (placeS dx (sliceSize vw vh dx dy).1 ax).2 ∧
+      val (placeS dy (sliceSize vw vh dx dy).2 ay).1 = 0 ∧ (placeS dy (sliceSize vw vh dx dy).2 ay).2 = dy) ∧
+    (¬ dx / dy < vw / vh →
+      (sliceSize vw vh dx dy).1 = dx ∧ (1 - 2 * u) * val dy ≤ val (sliceSize vw vh dx dy).2 ∧
+      val (placeS dx (sliceSize vw vh dx dy).1 ax).1 = 0 ∧ (placeS dx (sliceSize vw vh dx dy).1 ax).2 = dx ∧
+      (val dy ≤ val (sliceSize vw vh dx dy).2 →
+        val (placeS dy (sliceSize vw vh dx dy).2 ay).1 ≤ 0 ∧ val dy ≤ val (placeS dy (sliceSize vw vh dx dy).2 ay).2) ∧
+      val (placeS dy (sliceSize vw vh dx dy).2 ay).1 ≤ 3 * u * val dy ∧
+      (1 - 4 * u) * val dy ≤ val (placeS dy (sliceSize vw vh dx dy).2 ay).2) := Fit32.slice_covers_exact h
+
+/-- **exact covering by `aspectSlice`, as float32 comparisons with no tolerance**: in the branch
+    `dx/dy < vbAR` the returned rectangle satisfies `minX ≤ 0 ∧ dx ≤ maxX ∧ minY ≤ 0 ∧ dy ≤ maxY`; in the other
+    branch `minX ≤ 0 ∧ dx ≤ maxX`, and `minY ≤ 0 ∧ dy ≤ maxY` whenever the float height `dx / vbAR` is at
+    least `dy` — otherwise `minY ≤ 3u·dy` and `(1−4u)·dy ≤ maxY`. -/
+theorem aspectSlice_covers_exact (v : ViewBox F32) (dx dy ax ay : F32)
+    (h : Hyp v.size.1 v.size.2 dx dy ax ay) :
+    (dx / dy < v.size.1 / v.size.2 →
+      (v.aspectSlice dx dy ax ay).1 ≤ 0 ∧ dx ≤ (v.aspectSlice dx dy ax ay).2.2.1 ∧
+      (v.aspectSlice dx dy ax ay).2.1 ≤ 0 ∧ dy ≤ (v.aspectSlice dx dy ax ay).2.2.2) ∧
+    (¬ dx / dy < v.size.1 / v.size.2 →
+      (v.aspectSlice dx dy ax ay).1 ≤ 0 ∧ dx ≤ (v.aspectSlice dx dy ax ay).2.2.1 ∧
+      (dy ≤ dx / (v.size.1 / v.size.2) →
+        (v.aspectSlice dx dy ax ay).2.1 ≤ 0 ∧ dy ≤ (v.aspectSlice dx dy ax ay).2.2.2) ∧
+      val (v.aspectSlice dx dy ax ay).2.1 ≤ 3 * u * val dy ∧
+      (1 - 4 * u) * val dy ≤ val (v.aspectSlice dx dy ax ay).2.2.2) :=
+  Fit32.aspectSlice_covers_exact v dx dy ax ay h
+
+/-- only finiteness is used for the first branch: `rnd(dx/dy) < R` implies `dx ≤ rnd(dy·R)`. -/
+theorem slice_w_ge {dx dy R : F32} (hdx : FP dx) (hdy : FP dy) (fR : Fn R) (fC : Fn (dx / dy))
+    (fw : Fn (dy * R)) (hb : dx / dy < R) : val dx ≤ val (dy * R) := Fit32.slice_w_ge hdx hdy fR fC fw hb
 
 /-- (b) in the form `|w − w*| ≤ C·2^-24·w*` with `C = 3`, meet and slice. -/
 theorem size_err {vw vh dx dy ax ay : F32} (h : Hyp vw vh dx dy ax ay) :
@@ -178,14 +224,15 @@ theorem size_err {vw vh dx dy ax ay : F32} (h : Hyp vw vh dx dy ax ay) :
       3 * u * (sliceSizeQ (val vw) (val vh) (val dx) (val dy)).2) :=
   ⟨Fit32.meet_size_err h, Fit32.slice_size_err h⟩
 
-/-- the model functions ARE `meetSize`/`sliceSize` followed by `place` in each dimension -/
+/-- the model functions ARE `meetSize` followed by `place`, resp. `sliceSize` followed by `placeS`, in each
+    dimension -/
 theorem aspect_eq32 (v : ViewBox F32) (dx dy ax ay : F32) :
     v.aspectMeet dx dy ax ay =
       ((place dx (meetSize v.size.1 v.size.2 dx dy).1 ax).1, (place dy (meetSize v.size.1 v.size.2 dx dy).2 ay).1,
        (place dx (meetSize v.size.1 v.size.2 dx dy).1 ax).2, (place dy (meetSize v.size.1 v.size.2 dx dy).2 ay).2) ∧
     v.aspectSlice dx dy ax ay =
-      ((place dx (sliceSize v.size.1 v.size.2 dx dy).1 ax).1, (place dy (sliceSize v.size.1 v.size.2 dx dy).2 ay).1,
-       (place dx (sliceSize v.size.1 v.size.2 dx dy).1 ax).2, (place dy (sliceSize v.size.1 v.size.2 dx dy).2 ay).2) :=
+      ((placeS dx (sliceSize v.size.1 v.size.2 dx dy).1 ax).1, (placeS dy (sliceSize v.size.1 v.size.2 dx dy).2 ay).1,
+       (placeS dx (sliceSize v.size.1 v.size.2 dx dy).1 ax).2, (placeS dy (sliceSize v.size.1 v.size.2 dx dy).2 ay).2) :=
   ⟨aspectMeet_eq32 v dx dy ax ay, aspectSlice_eq32 v dx dy ax ay⟩
 
 /-- the returned width and height (differences of the returned corners) are the exact fitted ones up to
@@ -208,16 +255,25 @@ theorem aspectMeet_f32 (v : ViewBox F32) (vq : ViewBox ℚ) (dx dy ax ay : F32) 
     InsideNear (v.aspectMeet dx dy ax ay) (val dx) (val dy) ∧
     Touches (v.aspectMeet dx dy ax ay) dx dy := Fit32.aspectMeet_f32 v vq dx dy ax ay href h
 
-/-- **slice, `F32` instance against `ℚ` instance**.  Here the error is relative to target side + FITTED side
-    (`CornersNear`, `CoversNear`), and the fitted side may be much larger than the target: the clause "up to
-    float32 rounding relative to the target size" is FALSE for slice when the overflow exceeds `2^24` target
-    sizes — see `slice_far_right`. -/
+/-- **slice, `F32` instance against `ℚ` instance**: finite; every corner within `6u` (minima) resp. `8u`
+    (maxima) times (target side + FITTED side) of the exact corner (`CornersNearS` — the position of a
+    rectangle that overflows the target by a large factor can only be accurate relative to its own size);
+    the rectangle covers the target shrunk by `4u`/`5u` of the TARGET size (`CoversNear`; sharpened to no
+    tolerance at all by `aspectSlice_covers_exact`); and it equals the target in one dimension bit for bit
+    (`Touches`).  With `slice_covers` (the exact corners have the aspect ratio, cover, are aligned) this is the
+    property clause for slice. -/
 theorem aspectSlice_f32 (v : ViewBox F32) (vq : ViewBox ℚ) (dx dy ax ay : F32) (href : Ref v vq)
     (h : Hyp v.size.1 v.size.2 dx dy ax ay) :
     Fin4 (v.aspectSlice dx dy ax ay) ∧
-    CornersNear (v.aspectSlice dx dy ax ay) (vq.aspectSlice (val dx) (val dy) (val ax) (val ay)) (val dx) (val dy) ∧
-    CoversNear (v.aspectSlice dx dy ax ay) (vq.aspectSlice (val dx) (val dy) (val ax) (val ay)) (val dx) (val dy) ∧
+    CornersNearS (v.aspectSlice dx dy ax ay) (vq.aspectSlice (val dx) (val dy) (val ax) (val ay)) (val dx) (val dy) ∧
+    CoversNear (v.aspectSlice dx dy ax ay) (val dx) (val dy) ∧
     Touches (v.aspectSlice dx dy ax ay) dx dy := Fit32.aspectSlice_f32 v vq dx dy ax ay href h
+
+/-- slice: the returned width and height against the exact ones, `14u·(target side + fitted side)` -/
+theorem returned_size_near_slice {r : F32 × F32 × F32 × F32} {q : ℚ × ℚ × ℚ × ℚ} {dx dy : ℚ}
+    (h : CornersNearS r q dx dy) :
+    |(val r.2.2.1 - val r.1) - (q.2.2.1 - q.1)| ≤ 14 * u * (dx + (q.2.2.1 - q.1)) ∧
+    |(val r.2.2.2 - val r.2.1) - (q.2.2.2 - q.2.1)| ≤ 14 * u * (dy + (q.2.2.2 - q.2.1)) := h.size
 
 /-- **the hypotheses from a decidable condition on bit patterns**: all four sizes (float width and height
     of the viewBox, target width and height) in `[2^-30, 2^30]` (`Sized`: `0x30800000 ≤ bits ≤ 0x4E800000`),
@@ -263,28 +319,32 @@ set_option maxRecDepth 100000 in
 example : vbB.aspectMeet ⟨0x41200000⟩ ⟨0x40E00000⟩ ⟨0x3F000000⟩ ⟨0x3F000000⟩ =
       (⟨0⟩, ⟨1072343723⟩, ⟨0x41200000⟩, ⟨1084577109⟩) := by decide +kernel
 
-/-- **FINDING (slice, "relative to the target size")**: the 2^25:1 viewBox `(0,0)–(33554432,1)` sliced into
-    the 1×1 target with `ax = 1` (align the maxima): all sizes are in `[2^-30, 2^30]` (so `aspectSlice_f32`
-    applies), the exact result is `[1 − 2^25, 1] × [0, 1]`, but the float result is
-    `[−2^25, 0] × [0, 1]` — `maxX = 0`, the returned rectangle does not cover the target `[0,1]` in x at all:
-    `1 − 2^25` rounds to `−2^25` and `−2^25 + 2^25 = 0`.  The error is `2^-24` of the FITTED width, which is
-    the whole target width.  (Go: `ViewBox{0,0,33554432,1}.AspectSlice(1,1,1,0) = (-3.3554432e+07, 0, 0, 1)`.) -/
+/-- **the input of the former finding is now covered**: the 2^25:1 viewBox `(0,0)–(33554432,1)` sliced into
+    the 1×1 target with `ax = 1` (align the maxima); all sizes are in `[2^-30, 2^30]`.  The exact result is
+    `[1 − 2^25, 1] × [0, 1]`.  Before the repair (`maxX := minX + vdx`) the float result was `[−2^25, 0] × [0,1]`,
+    which does not cover the target in x at all; with the far edge measured from the target's far edge it is
+    `[−2^25, 1] × [0, 1]`: `maxX = dx` exactly.
+    (Go: `ViewBox{0,0,33554432,1}.AspectSlice(1,1,1,0) = (-3.3554432e+07, 0, 1, 1)`.) -/
 def vbFar : ViewBox F32 := ⟨⟨0⟩, ⟨0⟩, ⟨0x4C000000⟩, ⟨0x3F800000⟩⟩
 set_option maxRecDepth 100000 in
-theorem slice_far_right :
+theorem slice_far_right_covered :
     Hyp vbFar.size.1 vbFar.size.2 ⟨0x3F800000⟩ ⟨0x3F800000⟩ ⟨0x3F800000⟩ ⟨0⟩ ∧
-    vbFar.aspectSlice ⟨0x3F800000⟩ ⟨0x3F800000⟩ ⟨0x3F800000⟩ ⟨0⟩ = (⟨0xCC000000⟩, ⟨0⟩, ⟨0⟩, ⟨0x3F800000⟩) :=
+    vbFar.aspectSlice ⟨0x3F800000⟩ ⟨0x3F800000⟩ ⟨0x3F800000⟩ ⟨0⟩ =
+      (⟨0xCC000000⟩, ⟨0⟩, ⟨0x3F800000⟩, ⟨0x3F800000⟩) :=
   ⟨hyp_of_sized (by decide +kernel) (by decide +kernel) (by decide +kernel) (by decide +kernel)
     (by decide +kernel) (by decide +kernel), by decide +kernel⟩
 
-/-- **the range hypothesis is needed**: width `2^64`, height `2^-64` (finite, positive): the aspect ratio
-    overflows to `+Inf`; slice into the 1×1 target, centred, returns `(-Inf, 0, NaN, 1)`.
-    (Go: `ViewBox{0,0,0x1p64,0x1p-64}.AspectSlice(1,1,.5,.5) = (-Inf, 0, NaN, 1)`.) -/
+/-- **the range hypothesis is needed** (finding F-b, out of range): width `2^64`, height `2^-64` (finite,
+    positive): the aspect ratio overflows to `+Inf`; slice into the 1×1 target returns `(-Inf, 0, NaN, 1)` with
+    `ax = 1` and `(-Inf, 0, +Inf, 1)` centred.
+    (Go: `ViewBox{0,0,0x1p64,0x1p-64}.AspectSlice(1,1,1,.5) = (-Inf, 0, NaN, 1)`, `…(1,1,.5,.5) = (-Inf, 0, +Inf, 1)`.) -/
 def vbHuge : ViewBox F32 := ⟨⟨0⟩, ⟨0⟩, ⟨0x5F800000⟩, ⟨0x1F800000⟩⟩
 set_option maxRecDepth 100000 in
 theorem slice_overflow_nan :
+    vbHuge.aspectSlice ⟨0x3F800000⟩ ⟨0x3F800000⟩ ⟨0x3F800000⟩ ⟨0x3F000000⟩ =
+      (⟨0xFF800000⟩, ⟨0⟩, ⟨0xFFC00000⟩, ⟨0x3F800000⟩) ∧
     vbHuge.aspectSlice ⟨0x3F800000⟩ ⟨0x3F800000⟩ ⟨0x3F000000⟩ ⟨0x3F000000⟩ =
-      (⟨0xFF800000⟩, ⟨0⟩, ⟨0xFFC00000⟩, ⟨0x3F800000⟩) := by decide +kernel
+      (⟨0xFF800000⟩, ⟨0⟩, ⟨0x7F800000⟩, ⟨0x3F800000⟩) := by decide +kernel
 
 /-!
 ## Not proved in this file
@@ -294,8 +354,12 @@ theorem slice_overflow_nan :
   `dx/(vw/vh)`, `dy·(vw/vh)`, `dx`, `dy` in `[2·2^-126, (2^24−1)·2^104/8]`.  `hyp_of_sized` discharges it
   when the four sizes are in `[2^-30, 2^30]`.  Outside `InRange` nothing is proved, and the property fails
   there (`slice_overflow_nan`: finite positive sizes, NaN result).
-* For slice, the property's "relative to the target size" is false (`slice_far_right`); what is proved is
-  relative to target side + fitted side.  For meet the two coincide up to a factor 2.
+* Covering (slice) and containment (meet) are proved relative to the TARGET size, covering even exactly
+  (`aspectSlice_covers_exact`), except in one case: in the branch where `vdy = rnd(dx/vbAR)` is computed and
+  that float falls short of `dy` (by at most `2u·dy`, when the branch test was decided by rounding), covering
+  in y holds only up to `3u·dy` / `4u·dy`.  The ALIGNMENT of the slice rectangle (`CornersNearS`) is accurate
+  relative to target side + fitted side only: an overflow of `2^24` target sizes or more cannot be positioned
+  to a fraction of the target size in float32.  For meet the two scales coincide up to a factor 2.
 * The exact reference is the `ℚ` instance at the values of the FLOAT width and height (`Ref`); the error
   of `Size()` itself is `size_f32` (relative `2^-24` per dimension) and is not propagated through the
   fitting (the aspect ratio of a viewBox whose coordinates nearly cancel is ill-conditioned in the
@@ -327,6 +391,10 @@ end Ivg.Props.C12
   Ivg.Props.C12.aspectSlice_f32,
   Ivg.Props.C12.hyp_of_sized,
   Ivg.Props.C12.inRange_of_in30,
-  Ivg.Props.C12.slice_far_right,
+  Ivg.Props.C12.slice_covers_exact,
+  Ivg.Props.C12.aspectSlice_covers_exact,
+  Ivg.Props.C12.slice_w_ge,
+  Ivg.Props.C12.returned_size_near_slice,
+  Ivg.Props.C12.slice_far_right_covered,
   Ivg.Props.C12.slice_overflow_nan,
   Ivg.Gen.Tie.viewBox_fields_tie]
